@@ -136,7 +136,11 @@ func c13Module(scratch, sub string) (string, string, error) {
 		return "", "", err
 	}
 	harness, _ := filepath.Abs("..")
-	gomod := fmt.Sprintf("module gendiff\n\ngo 1.25.7\n\nrequire (\n\tgithub.com/ipld/go-ipld-prime v0.0.0\n\tpgregory.net/rapid v1.3.0\n\tverif v0.0.0\n)\n\nreplace github.com/ipld/go-ipld-prime => /repo\n\nreplace verif => %s\n", harness)
+	repo := "/repo"
+	if alt := os.Getenv("VERIF_REPO"); alt != "" {
+		repo = alt
+	}
+	gomod := fmt.Sprintf("module gendiff\n\ngo 1.25.7\n\nrequire (\n\tgithub.com/ipld/go-ipld-prime v0.0.0\n\tpgregory.net/rapid v1.3.0\n\tverif v0.0.0\n)\n\nreplace github.com/ipld/go-ipld-prime => %s\n\nreplace verif => %s\n", repo, harness)
 	_ = os.WriteFile(filepath.Join(mod, "go.mod"), []byte(gomod), 0o666)
 	if b, err := os.ReadFile(filepath.Join(harness, "go.sum")); err == nil {
 		_ = os.WriteFile(filepath.Join(mod, "go.sum"), b, 0o666)
